@@ -10,13 +10,14 @@ mod manual_c15;
 mod manual_c17;
 mod manual_c04;
 mod manual_c05s;
+mod manual_c18;
 mod wire;
 use std::io::{BufRead, Write};
 use std::panic::{catch_unwind, AssertUnwindSafe};
 use wire::Args;
 
 /// contributed manual op tables: add `mod manual_<tag>;` above and `manual_<tag>::dispatch` here
-pub static CONTRIB: &[fn(&str, &str, &mut Args) -> Option<String>] = &[manual_c13b::dispatch, manual_c19::dispatch, manual_c11::dispatch, manual_c16::dispatch, manual_c20::dispatch, manual_c15::dispatch, manual_c17::dispatch, manual_c04::dispatch, manual_c05s::dispatch];
+pub static CONTRIB: &[fn(&str, &str, &mut Args) -> Option<String>] = &[manual_c13b::dispatch, manual_c19::dispatch, manual_c11::dispatch, manual_c16::dispatch, manual_c20::dispatch, manual_c15::dispatch, manual_c17::dispatch, manual_c04::dispatch, manual_c05s::dispatch, manual_c18::dispatch];
 
 fn main() {
     std::panic::set_hook(Box::new(|_| {}));
